@@ -42,9 +42,9 @@ fn matrix(state: &State<Tsp>, n: usize) -> Vec<Vec<f64>> {
     (0..n).map(|i| pm[i].to_vec()).collect()
 }
 
-fn run(instance: &Tsp, seed: u64, min_max: bool, tau0: f64) -> u64 {
+fn run(instance: &Tsp, seed: u64, min_max: bool, tau0: f64, alpha: f64) -> u64 {
     let n = instance.dimension();
-    let (num_ants, alpha, beta, evaporation, decay, tmax, tmin) = (4usize, 1.0, 2.0, 0.2, 1.5, 2.0, 0.05);
+    let (num_ants, beta, evaporation, decay, tmax, tmin) = (4usize, 2.0, 0.2, 1.5, 2.0, 0.05);
     let generation: Box<dyn Component<Tsp>> = AcoGeneration::new(num_ants, alpha, beta, tau0);
     let update: Box<dyn Component<Tsp>> = if min_max { MinMaxPheromoneUpdate::new(evaporation, tmax, tmin).unwrap() } else { AsPheromoneUpdate::new(evaporation, decay) };
     let evaluate = Configuration::<Tsp>::builder().evaluate().build();
@@ -57,7 +57,7 @@ fn run(instance: &Tsp, seed: u64, min_max: bool, tau0: f64) -> u64 {
     evaluate.heuristic().init(instance, &mut state).unwrap();
     update.require(instance, &state.requirements()).expect("the pheromone matrix must be present after the generation's init");
     let variant = if min_max { "MinMaxPheromoneUpdate" } else { "AsPheromoneUpdate" };
-    let fail = |it: usize, why: String| -> ! { eprintln!("COUNTEREXAMPLE {variant} cities={n} seed={seed} initial_pheromones={tau0} iteration={it}: {why}"); panic!("ant colony component violates C19") };
+    let fail = |it: usize, why: String| -> ! { eprintln!("COUNTEREXAMPLE {variant} cities={n} seed={seed} initial_pheromones={tau0} alpha={alpha} iteration={it}: {why}"); panic!("ant colony component violates C19") };
     let mut steps = 0;
     for it in 0..25usize {
         generation.execute(instance, &mut state).expect("generation must not fail");
@@ -129,9 +129,11 @@ pub fn c19_native_ant_colony() {
     let mut cases = 0u64;
     for instance in [Tsp { d: line }, Tsp { d: mixed }] {
         for seed in 0..4u64 {
-            cases += run(&instance, seed, false, 1.0);
+            // ant system with the pheromone exponent alpha in {1, 0 (pure heuristic sampling), 0.25, 2}: the greedy tour follows the
+            // trails themselves whatever the exponent used for sampling
+            for alpha in [1.0, 0.0, 0.25, 2.0] { cases += run(&instance, seed, false, 1.0, alpha); }
             // max-min: initial trails inside, above and below the configured bounds [0.05, 2]
-            for tau0 in [1.0, 3.0, 0.01] { cases += run(&instance, seed, true, tau0); }
+            for tau0 in [1.0, 3.0, 0.01] { cases += run(&instance, seed, true, tau0, 1.0); }
         }
     }
     println!("c19_native_ant_colony: {} generation + update steps checked", cases);
